@@ -22,7 +22,7 @@ SEEDS = {
  "C11-1": ("C11", "follower of a subgraph single flight waking between the leader's close(loaded) and its later statusCode / header assignments, with a status-dependent answer", "C11 quick", "caught after strengthening (schedule points AFTER close/send statements, scenario L7 with a 503 answer and PropagateSubgraphStatusCodes)"),
  "C11-2": ("C11", "inbound single flight with a waiting follower while the leader's own client write fails (context still alive)", "C11 quick", "caught after strengthening (scenario I7: one client's writer is broken)"),
  "C14-1": ("C14", "pre-fetch authorization and one operation that resolves the same protected coordinate from two different subgraphs", "C14 quick", "caught after strengthening (layout with User.name / nick shareable in a second subgraph, curated two-root-field operations)"),
- "C14-2": ("C14", "pre-fetch authorization and a protected SUBSCRIPTION root field selected under an alias", "MISSED", "not caught: the subscription transport is not covered by C14 (stated limit, DESIGN.md 8.2 / 8.5)"),
+ "C14-2": ("C14", "pre-fetch authorization and a protected SUBSCRIPTION root field selected under an alias", "C14 quick", "missed as built (no subscription transport in C14); caught after fedlab learned to serve subscriptions over SSE through the real subscription client and C14 got judgeSub (clause: with pre-fetch authorization a subscription request is not sent when its root field is denied; 4 fingerprints)"),
  "C15-1": ("C15", "block string literal with a non-empty whitespace-only interior line shorter than the common indent", "C15 quick", "caught after strengthening (new spellings; block strings judged under a two-oracle rule because gqlparser itself mis-evaluates some)"),
  "C15-2": ("C15", "a variable with an operation-level default and the client sending an explicit null for it", "C15 quick", "caught after strengthening (form 'explicit null for a variable with a default')"),
  "C16-1": ("C16", "a batched entity fetch whose error-free public answer has a null in a NON-LAST position of _entities, then a later request covered by the keys written", "C16 quick", "caught after strengthening (simulator can answer null for an entity it does not know; history alphabet extended)"),
@@ -43,8 +43,8 @@ SEEDS = {
  "C12-2": ("C12", "a subscriber with heartbeats, a Flush slow enough to span a heartbeat tick: writeMu released before Flush", "C12 quick", "caught as built (3 new fingerprints: overlapping writer calls)"),
  "C13-1": ("C13", "the trigger detached before Source.Start returns nil (last subscriber leaves during Start, or the source reports failure from inside Start as Error(); Done(); return nil), with a Reporter configured", "C13 quick (ported patch)", "masked while the genuine defect H2 (late TriggerCountInc, same clause/site/class) was a known finding; after the H2/H3 fixes were cherry-picked the ported edit (patch_ported.diff: markTriggerInitialized trusts the captured trigger) is caught: 2 fingerprints"),
  "C13-2": ("C13", "two live subscriptions to one subgraph with byte-identical operation and headers that differ only in initial_payload (SubscriptionSource.HashTriggerInput hashes selected fields)", "C13 quick", "missed as built (the harness hashed with its own source); caught after strengthening by the check's author (part E: all 841 ordered pairs of a 29-item collision-oriented menu of subscription inputs through the REAL SubscriptionSource hashing and the real resolver): initial_payload differs / ws_sub_protocol differs"),
- "C20-1": ("C20", "ONE gRPC DataSource used for several Loads with different variables (sequential with a resolver nested in a resolver and an empty second root result, or two interleaved Loads): call dependency graph shared across Loads", "MISSED (author resumed)", "missed as built: a fresh DataSource per case / no Load histories on one instance"),
- "C20-2": ("C20", "__typename selected under an ALIAS on an interface / union typed selection", "MISSED (author resumed)", "missed as built: aliases are not applied to __typename"),
+ "C20-1": ("C20", "ONE gRPC DataSource used for several Loads with different variables (sequential with a resolver nested in a resolver and an empty second root result, or two interleaved Loads): call dependency graph shared across Loads", "C20 quick", "missed as built (a fresh DataSource per case); caught after strengthening by the check's author (history_test.go: sequential Load histories on ONE instance compared with a fresh instance, and two gated interleaved Loads compared with their solo answers; 14 fingerprints)"),
+ "C20-2": ("C20", "__typename selected under an ALIAS on an interface / union typed selection", "C20 quick", "missed as built (aliases were not applied to __typename); caught after strengthening by the check's author (reformulations aliastypename / aliascopy; 25 fingerprints, clause 'the answer has exactly the shape of the selection')"),
 }
 
 # ---- round 2 (a second, independent set of seed agents that were told what round 1 had taken);
@@ -63,7 +63,7 @@ SEEDS2 = {
  "C06-3": ("C06-1", "a variable with a default and an explicit JSON null", "C06 quick", "caught as built"),
  "C06-4": ("C06-2", "a walked list with a null item at a lower index than an item needing single-value-to-list coercion", "C06 quick", "missed as built; caught after the author added every order of {null, plain, coercion item, wrong item} and the normalized-variables clause"),
  "C07-3": ("C07-1", "a BATCH entity fetch answered with exactly zero entities", "C07 quick", "missed as built; caught after adding the fault kind entities-empty"),
- "C07-4": ("C07-2", "ValidateRequiredExternalFields, a PARTIAL failure (data plus an error pointing at a null @requires input) of an entity NESTED in the object the dependant fetch is built from, not as its last member", "MISSED", "not caught: the fault kinds have no partial failures with error paths and the resolver option is off (limit, DESIGN 8.6)"),
+ "C07-4": ("C07-2", "ValidateRequiredExternalFields, a PARTIAL failure (data plus an error pointing at a null @requires input) of an entity NESTED in the object the dependant fetch is built from, not as its last member", "C07 quick", "missed as built; partial failures on an engine with ValidateRequiredExternalFields came first (they exposed a genuine defect, fixed e709c90) but the failed entity was always the dependant's own object; caught after adding the model S-nreq (@requires(fields: \"address { zip }\") through the entity Account.address into a third subgraph)"),
  "C08-3": ("C08-1", "a chain of three nested fetches without explicit dependencies whose middle provider has an empty merge path", "C08 quick", "caught as built (part a)"),
  "C08-4": ("C08-2", "a dependency chain A -> B -> C, A fails, C has merge targets from an earlier successful fetch: skipping is not transitive", "C07 quick", "missed by C08 (its gated executions have no faults); caught as built by C07 ('new representation', 12 fingerprints)"),
  "C09-3": ("C09-1", "an entity whose keys form a diamond over four subgraphs (two equally short multi-hop routes): route order follows map iteration", "C09 quick", "missed as built; caught after adding the S-keys diamond family to the map-order part"),
@@ -113,6 +113,16 @@ SEEDS3 = {
  "C15-6": ("C15-2", "an input object literal with a field whose value is directly a variable, the client sending the empty string", "C15 quick", "caught as built"),
  "C16-5": ("C16-1", "a cache entry that comes back with a zero-length value (no error)", "C16 quick", "missed as built; caught after adding the cache faults lose-one-value / lose-all-values"),
  "C16-6": ("C16-2", "cache attached, an error-free storable 200 whose _entities list does not line up with the representations", "C16 quick", "missed as built; caught after adding the response classes entities-empty / entities-short"),
+ "C02-5": ("C02-1", "a plan field carrying BOTH its own OnTypeNames and ParentOnTypeNames (mergeFields of `pet { owner{name} ... on Dog { owner { ... on Person { age } } } }`), payload where the own condition matches and the ancestor's does not", "PENDING", "missed as built; the check's author is adding the category"),
+ "C02-6": ("C02-2", "ApolloCompatibilityValueCompletionInExtensions on, an invalid enum value at a nullable enum position and no other error: the print walk emits the raw string", "PENDING", "missed as built; the check's author is adding the category"),
+ "C04-5": ("C04-1", "a directive whose DEFINITION declares no arguments, misused (wrong location, duplicate, unknown argument): RequiredArguments calls the walker-global SkipNode and hides it from the later rules", "PENDING", "missed as built; the check's author is adding the category"),
+ "C04-6": ("C04-2", "ONE re-used OperationNormalizer: a request whose normalization aborts (undefined fragment / cycle) leaks its 'safe to delete' variable list into the next request, whose unused variable is silently deleted", "PENDING", "missed as built; the check's author is adding histories on one normalizer"),
+ "C05-5": ("C05-1", "indented printing of a field with >=2 arguments where an earlier one has a description and a later one has none, after a name-like token", "C05 quick", "caught as built"),
+ "C05-6": ("C05-2", "a description whose whole content is the keyword `implements` directly after a body-less object / interface definition", "C05 quick", "missed as built (the mis-parsed document is self-consistent under print/parse, and no string spelled a keyword); caught after the author added a differential oracle on every input (each string token whose content is one of the 19 grammar keywords is replaced by a neutral word: same verdict, same shape) and an enumerated family of 48 k documents (23 ways a definition can end x 18 described definitions / extensions + 13 member hosts, quoted and block forms)"),
+ "C06-5": ("C06-1", "validation with a variable remap table (always used by Execute): a declared variable absent from the JSON and a JSON key spelled like its canonical name", "C06 quick", "caught as built (35 fingerprints)"),
+ "C06-6": ("C06-2", "a multi-operation document whose executed operation is not the first and whose first operation declares no variables: Execute gates validation on operation 0", "C06 quick", "missed as built (single-operation documents only, Execute's own gate never run); caught after the author added every case of a small single-variable space through the real ExecutionEngine.Execute inside 8 two-operation documents, differential against the single-operation run - which exposed a genuine defect (list coercion looks variables up in the FIRST operation), fixed 67a8cae"),
+ "C17-5": ("C17-1", "a renamed query root (schema { query: Root }) PLUS an ordinary type literally named Query", "C17 quick", "caught as built"),
+ "C17-6": ("C17-2", "an argument / input field / directive argument whose default is the top-level literal null", "C17 quick", "caught as built"),
 }
 
 def log_summary(name, logdir="/tmp/seedlogs"):
